@@ -445,6 +445,36 @@ def _ds_value(ds):
     return out
 
 
+def _pix_value(ds):
+    """what a caller who has looked at the image sees of the data set's (cached) pixel array, and of the array nibabel's
+    DICOM wrapper hands out for it: shape, dtype, writeable flag, strides, values"""
+    import numpy as np
+    from nibabel.nicom.dicomwrappers import wrapper_from_data
+    a = ds.pixel_array
+    out = {'shape': [int(x) for x in a.shape], 'dtype': str(a.dtype), 'writeable': bool(a.flags.writeable),
+           'strides': [int(x) for x in a.strides], 'values': [int(x) for x in np.asarray(a).ravel()]}
+    try:
+        d = wrapper_from_data(ds).get_data()
+        out['nicom'] = {'shape': [int(x) for x in d.shape], 'dtype': str(d.dtype), 'values': [float(x) for x in np.asarray(d).ravel()]}
+    except Exception as e:      # noqa: BLE001
+        out['nicom'] = {'exc': type(e).__name__}
+    return out
+
+
+def _input_changes(fid, ds, ds0, pix0, meta, meta0):
+    ch = []
+    if _ds_value(ds) != ds0:
+        ch.append(['dataset (elements)', fid])
+    p = _pix_value(ds)
+    if p != pix0:
+        diff = [k for k in sorted(p) if p[k] != pix0.get(k)]
+        ch.append(['dataset (pixel array: %s; e.g. %s %r -> %r)' % (', '.join(diff), diff[0], pix0.get(diff[0]) if diff[0] != 'values' else '...',
+                                                                  p[diff[0]] if diff[0] != 'values' else '...'), fid])
+    if meta is not None and M.plain(meta) != meta0:
+        ch.append(['metadata dictionary', fid])
+    return ch
+
+
 def run_conv(case):
     """Build the series, add every file (hand-built or extracted metadata), convert twice (with and without embedding, the
     requested voxel order and none): every input data set, every metadata dictionary handed to add_dcm and the extension the
@@ -460,7 +490,11 @@ def run_conv(case):
     for i in case['add_order']:
         spec = case['files'][i]
         ds = M.build_ds(spec)
+        rs = case.get('rescale')
+        if rs is not None:                      # identity or real rescale (none: the elements are absent)
+            ds.RescaleSlope, ds.RescaleIntercept = rs[0], rs[1]
         ds0 = _ds_value(ds)
+        pix0 = _pix_value(ds)                   # the caller has looked at the image: the pixel-array cache exists
         if case['meta_mode'] == 'hand':
             meta = M.meta_truth(case, spec)
             meta0 = copy.deepcopy(M.plain(meta))
@@ -468,27 +502,27 @@ def run_conv(case):
         else:
             meta, meta0 = None, None
             st.add_dcm(ds)
-        if _ds_value(ds) != ds0:
-            changed_by_add.append(['dataset', spec['id']])
-        if meta is not None and M.plain(meta) != meta0:
-            changed_by_add.append(['metadata dictionary', spec['id']])
-        inputs.append((spec['id'], ds, ds0, meta, meta0))
+        changed_by_add += _input_changes(spec['id'], ds, ds0, pix0, meta, meta0)
+        inputs.append((spec['id'], ds, ds0, pix0, meta, meta0))
     out = {'changed_by_add': changed_by_add, 'steps': []}
     for name, f in (('to_nifti(%r, embed_meta=True)' % case['vo'], lambda: st.to_nifti(case['vo'], embed_meta=True)),
                     ('to_nifti_wrapper(%r)' % '', lambda: st.to_nifti_wrapper('')),
-                    ('to_nifti(%r, embed_meta=False)' % case['vo'], lambda: st.to_nifti(case['vo'], embed_meta=False))):
+                    ('to_nifti(%r, embed_meta=False)' % case['vo'], lambda: st.to_nifti(case['vo'], embed_meta=False)),
+                    ('NiftiWrapper.from_dicom(first data set)', lambda: _from_dicom(inputs[0][1]))):
         step = {'step': name, 'changed': []}
         try:
             f()
         except Exception as e:      # noqa: BLE001
             step['exc'] = type(e).__name__
-        for fid, ds, ds0, meta, meta0 in inputs:
-            if _ds_value(ds) != ds0:
-                step['changed'].append(['dataset', fid])
-            if meta is not None and M.plain(meta) != meta0:
-                step['changed'].append(['metadata dictionary', fid])
+        for fid, ds, ds0, pix0, meta, meta0 in inputs:
+            step['changed'] += _input_changes(fid, ds, ds0, pix0, meta, meta0)
         out['steps'].append(step)
     return out
+
+
+def _from_dicom(ds):
+    from dcmstack import dcmmeta
+    return dcmmeta.NiftiWrapper.from_dicom(ds)
 
 
 def oracle_conv(case, obs):
@@ -508,7 +542,9 @@ class ConvPart:
     IMPL_TIMEOUT = 120
     RULE = ('synthetic complete series (C01 generators: 3-5 D, every orientation / voxel order, hand-built and extracted metadata), '
             'added to a DicomStack and converted three times (embedding on / off, with and without voxel reordering); every input '
-            'pydicom data set (all elements incl. pixel bytes) and every metadata dictionary handed to add_dcm is compared by value '
+            'pydicom data set (all elements incl. pixel bytes; its cached pixel_array - touched beforehand, as a caller who looked at '
+            'the image would have - and the array nibabel hands out for it: shape, dtype, writeable, strides, values; without, with '
+            'identity and with real rescale elements) and every metadata dictionary handed to add_dcm is compared by value '
             'before / after add_dcm and after every conversion; oracle only; non-trivial = at least two files and a conversion ran')
 
     @staticmethod
@@ -516,7 +552,9 @@ class ConvPart:
         out = []
         for _ in range(50 if tier == 'quick' else 400):
             c = M.gen_case(rng, tier, shape_class=rng.choice([None, None, '5d', 'vec_t1', '3d']))
-            c['kind'] = 'conv/' + c['kind']
+            # no rescale elements / identity rescale (nibabel then hands out pydicom's cached array itself) / real rescale
+            c['rescale'] = rng.choice([None, None, [1.0, 0.0], [2.0, 1.0]])
+            c['kind'] = 'conv/%s/%s' % ({None: 'no-rescale', 1.0: 'identity-rescale', 2.0: 'rescale'}[c['rescale'] and c['rescale'][0]], c['kind'])
             out.append(c)
         return out
 
@@ -525,7 +563,8 @@ class ConvPart:
 
     @staticmethod
     def signature(case, obs, msg):
-        return 'conv-inputs/%s/%s' % (msg.split(' ')[0], 'dataset' if 'dataset' in msg else 'metadata')
+        return 'conv-inputs/%s/%s' % (msg.split(' ')[0].split('(')[0], 'pixel-array' if 'pixel array' in msg else
+                                     'dataset' if 'dataset' in msg else 'metadata')
 
     @staticmethod
     def nontrivial(case, obs):
@@ -569,3 +608,21 @@ TABLES = sorted(set(list(TABLES) + ['t_src_state', 't_content', 't_cli']))
 # dictionary is proved equal to the translation (Props/SRCsubset.v)
 COQ_PROPS = list(COQ_PROPS) + ['Props/SRCsubset.v']
 THEOREMS = list(THEOREMS) + ['SRC_copy_slice_step', 'SRC_copy_slice']
+
+
+# source tie, stage C2 (integrator): _copy_sample TRANSLATED in state-passing form; copy_sample_k folded over the source class dictionary
+# is proved equal to the translation (Props/SRCsample.v)
+COQ_PROPS = list(COQ_PROPS) + ['Props/SRCsample.v']
+THEOREMS = list(THEOREMS) + ['SRC_copy_sample_step', 'SRC_copy_sample']
+
+
+# source tie, stage C3 (integrator): get_subset as a whole TRANSLATED (class-major) and proved to produce, on to_content e, a content that
+# Holds exactly the hand model's get_subset result (Props/SRCgetsubset.v, success-case form)
+COQ_PROPS = list(COQ_PROPS) + ['Props/SRCgetsubset.v']
+THEOREMS = list(THEOREMS) + ['SRC_get_subset_content', 'SRC_get_subset']
+
+
+# source tie, stage D (integrator): _insert_slice TRANSLATED in state-passing form and proved a refinement of insert_slice_k for the five
+# varying classes (Props/SRCinsert.v); the ('global','const') path is translated and executed against the code only
+COQ_PROPS = list(COQ_PROPS) + ['Props/SRCinsert.v']
+THEOREMS = list(THEOREMS) + ['SRC_insert_slice', 'SRC_insert_non_slice', 'SRC_insert_sample']
